@@ -265,6 +265,13 @@ theorem deps_exact (n : Node) :
     (∀ (env : Obj → Option Obj) (k : Obj), k ∈ n.deps → env k = none → evalNode env n = none) :=
   ⟨fun env env' h => evalNode_congr env env' n h, fun env k hk he => evalNode_missing env k he n hk⟩
 
+
+/-- **On clean objects the converted node's dependencies are exactly what `get_dependencies` reports** (the same list,
+    in the same order); the two refutation witnesses above are the two ways an object can fail to be clean. -/
+theorem deps_exact_legacy_partial (keys : List Obj) (hKt : ∀ k ∈ keys, k.keyTyped = true) (o : Obj)
+    (hc : clean keys o = true) : (convert keys o).deps = legacyRefs keys o :=
+  convert_deps keys hKt o hc
+
 /-- against legacy `get_dependencies` the converted node's dependencies differ on the two witnesses -/
 theorem deps_vs_get_dependencies_refuted_dict :
     (convert [.str "a"] (.tuple [.fn 0, .dict [(.str "x", .str "a")]])).deps = [] ∧
